@@ -252,6 +252,40 @@ pub fn reload_role_scenario(kind: &str) -> Scenario {
     }
 }
 
+/// Activity-based routing on (a rarely used option): once the database is past its init delay, a message
+/// that starts a transaction and goes on with a read still opens the transaction on the primary.
+pub fn activity_scenario() -> Scenario {
+    let mut pool = PoolCfg::simple("db", "transaction", 2, 1, 2);
+    pool.extra = "query_parser_enabled = true\nquery_parser_read_write_splitting = true\nprimary_reads_enabled = false\ndefault_role = \"any\"\ndb_activity_based_routing = true\ndb_activity_init_delay = 100\n".into();
+    let cfg = Cfg::one(pool);
+    let servers = cfg.servers();
+    let mut t = 0usize;
+    let mut tg = || {
+        t += 1;
+        tag(0, t, 0)
+    };
+    let mut s = Script::new("c0").connect("alice", "db", Some("alicepw"));
+    // first contact starts the init delay (everything goes to the primary meanwhile: not judged)
+    s = s.q("SELECT * FROM warmup");
+    s = s.step(crate::world::Step::Advance(500));
+    s = s.q(&stmt("BEGIN; SELECT * FROM t9", &tg(), "primary"));
+    s = s.q(&stmt("UPDATE t9 SET a = 2", &tg(), "primary"));
+    s = s.q(&stmt("COMMIT", &tg(), "primary"));
+    s = s.q(&stmt("INSERT INTO t8 VALUES (1)", &tg(), "primary"));
+    s = s.q(&stmt("BEGIN; SELECT 104", &tg(), "primary"));
+    s = s.q(&stmt("ROLLBACK", &tg(), "primary"));
+    s = s.terminate();
+    Scenario {
+        name: "C05 prog=activity-begin-then-read primary_reads=false default_role=any".to_string(),
+        toml: cfg.toml(),
+        alt_tomls: vec![],
+        servers,
+        actors: vec![s.actor()],
+        opts: Opts { explore_perms: true, ..Opts::default() },
+        meta: serde_json::Value::Null,
+    }
+}
+
 fn role_of_server(addr: &str) -> &'static str {
     // pg-s<shard>-<p|r><idx>
     match addr.split('-').nth(2).and_then(|x| x.chars().next()) {
@@ -338,6 +372,7 @@ pub fn build(tier: &str) -> SimCheck {
     for d in ["primary", "replica", "any"] {
         scenarios.push(default_role_scenario(d));
     }
+    scenarios.push(activity_scenario());
     for kind in ["explicit-other", "explicit-same", "paused-write", "follows-default"] {
         scenarios.push(reload_role_scenario(kind));
     }
@@ -346,7 +381,7 @@ pub fn build(tier: &str) -> SimCheck {
         oracle: Box::new(oracle),
         bound: 1,
         limits: Limits::default(),
-        rule: "sim: 1 primary + 2 replicas, 9 programs (inferred routing over simple and extended protocol incl. transactions and recomputation, a sequence of extended-protocol transactions alternating reads and writes, a write and a read in one batch in both orders, a named write statement bound again after reads, SET SERVER ROLE primary/replica/any then both protocols, all replicas down, primary down) x primary_reads on/off (x default_role in thorough), every candidate order (enumerated shuffle) with 1 deviation; plus parser off: two fresh sessions under default_role primary / replica / any; plus a RELOAD that changes default_role under a connected client (explicit role different from / equal to the old default, a write held by PAUSE across the reload, a client that never chose)".into(),
+        rule: "sim: 1 primary + 2 replicas, 9 programs (inferred routing over simple and extended protocol incl. transactions and recomputation, a sequence of extended-protocol transactions alternating reads and writes, a write and a read in one batch in both orders, a named write statement bound again after reads, SET SERVER ROLE primary/replica/any then both protocols, all replicas down, primary down) x primary_reads on/off (x default_role in thorough), every candidate order (enumerated shuffle) with 1 deviation; plus parser off: two fresh sessions under default_role primary / replica / any; plus a RELOAD that changes default_role under a connected client (explicit role different from / equal to the old default, a write held by PAUSE across the reload, a client that never chose); plus db_activity_based_routing on: a message that starts a transaction and continues with a read".into(),
         assumptions: vec!["server role read off the labelled backend address".into()],
     }
 }
